@@ -3,47 +3,52 @@
 validation results and the detection matrix, and writes seeded/README.md."""
 import json, os, shutil, glob, sys
 HERE = os.path.dirname(os.path.dirname(os.path.abspath(__file__)))
-INC = os.path.join(HERE, 'seeded', '_incoming')
-val = json.load(open(os.path.join(INC, 'validation.json')))
 matrix = json.load(open(os.path.join(HERE, 'seeded', 'matrix.json')))
 rows = []
-for key in sorted(val):
-    v = val[key]
-    prop, k = key.split('/')
-    src = os.path.join(INC, prop, k)
-    sid = '%s-%s' % (prop, k)
-    dst = os.path.join(HERE, 'seeded', sid)
-    if not v.get('confirmed'):
+for rnd, incname in ((1, '_incoming'), (2, '_incoming2')):
+    INC = os.path.join(HERE, 'seeded', incname)
+    if not os.path.exists(os.path.join(INC, 'validation.json')):
         continue
-    os.makedirs(dst, exist_ok=True)
-    shutil.copy(os.path.join(src, 'patch.diff'), os.path.join(dst, 'patch.diff'))
-    demo = None
-    for d in ('demo.rs', 'demo.sh'):
-        if os.path.exists(os.path.join(src, d)):
-            shutil.copy(os.path.join(src, d), os.path.join(dst, d)); demo = d
-    am = {}
-    try:
-        am = json.load(open(os.path.join(src, 'meta.json')))
-    except Exception:
-        pass
-    row = matrix.get(key, {})
-    caught = sorted(c for c, r in row.items() if isinstance(r, dict) and r.get('rc') == 1)
-    own = prop in caught
-    meta = {
-        'id': sid, 'property': prop, 'source': 'independent sub-agent given only the property text and a scratch worktree of /repo',
-        'summary': am.get('summary'), 'needs_to_manifest': am.get('needs_to_manifest'), 'files_touched': am.get('files_touched'),
-        'demonstration': demo, 'how_to_run_demo': am.get('how_to_run_demo'),
-        'confirmed_here': {'what_was_run': 'tools/validate_seeds.py in a scratch worktree: git apply; cargo test --workspace --no-fail-fast --offline; demonstration with and without the patch',
-                           'suite_with_patch': v.get('suite'), 'demo_exit_with_patch': v.get('demo_with'), 'demo_exit_without_patch': v.get('demo_without')},
-        'detection': {'what_was_run': 'tools/matrix.py: patch applied to a scratch worktree, all 19 quick checks run against it (VERIF_REPO)',
-                      'caught_by': caught, 'caught_by_own_property_check': own,
-                      'rules': {c: row[c].get('rules') for c in caught}},
-    }
-    json.dump(meta, open(os.path.join(dst, 'meta.json'), 'w'), indent=1, ensure_ascii=False)
-    rows.append((sid, prop, (am.get('summary') or '')[:150].replace('\n', ' ').replace('|', '/'), caught, own))
+    val = json.load(open(os.path.join(INC, 'validation.json')))
+    for key in sorted(val):
+        v = val[key]
+        prop, k = key.split('/')
+        src = os.path.join(INC, prop, k)
+        sid = '%s-%d' % (prop, int(k) + (3 if rnd == 2 else 0))
+        dst = os.path.join(HERE, 'seeded', sid)
+        mkey = key + ('#2' if rnd == 2 else '')
+        if not v.get('confirmed'):
+            print('not confirmed, skipped:', incname, key)
+            continue
+        os.makedirs(dst, exist_ok=True)
+        shutil.copy(os.path.join(src, 'patch.diff'), os.path.join(dst, 'patch.diff'))
+        demo = None
+        for d in ('demo.rs', 'demo.sh'):
+            if os.path.exists(os.path.join(src, d)):
+                shutil.copy(os.path.join(src, d), os.path.join(dst, d)); demo = d
+        am = {}
+        try:
+            am = json.load(open(os.path.join(src, 'meta.json')))
+        except Exception:
+            pass
+        row = matrix.get(mkey, {})
+        caught = sorted(c for c, r in row.items() if isinstance(r, dict) and r.get('rc') == 1)
+        own = prop in caught
+        meta = {
+            'id': sid, 'property': prop, 'round': rnd, 'source': 'independent sub-agent given only the property text and a scratch worktree of /repo' + (' (second round: told which ideas were already used, asked for different ones)' if rnd == 2 else ''),
+            'summary': am.get('summary'), 'needs_to_manifest': am.get('needs_to_manifest'), 'files_touched': am.get('files_touched'),
+            'demonstration': demo, 'how_to_run_demo': am.get('how_to_run_demo'),
+            'confirmed_here': {'what_was_run': 'tools/validate_seeds.py in a scratch worktree: git apply; cargo test --workspace --no-fail-fast --offline; demonstration with and without the patch',
+                               'suite_with_patch': v.get('suite'), 'demo_exit_with_patch': v.get('demo_with'), 'demo_exit_without_patch': v.get('demo_without')},
+            'detection': {'what_was_run': 'tools/matrix.py: patch applied to a scratch worktree, all 19 quick checks run against it (VERIF_REPO)',
+                          'caught_by': caught, 'caught_by_own_property_check': own,
+                          'rules': {c: row[c].get('rules') for c in caught}},
+        }
+        json.dump(meta, open(os.path.join(dst, 'meta.json'), 'w'), indent=1, ensure_ascii=False)
+        rows.append((sid, prop, (am.get('summary') or '')[:150].replace('\n', ' ').replace('|', '/'), caught, own))
 with open(os.path.join(HERE, 'seeded', 'README.md'), 'w') as f:
     f.write('# Seeded changes and which checks report them\n\n')
-    f.write('57 changes produced by independent sub-agents (one per property, three each), each confirmed here: with the patch the\nrepository\'s suite passes and the demonstration fails, without it the demonstration passes. `caught by` lists every quick\ncheck that exits 1 on the patched tree (matrix.json has rule names and counts). None of these patches is ever committed to /repo.\n\n')
+    f.write('%d changes produced by independent sub-agents (one per property, three each per round; round 2 was told which ideas round 1 had used)' % len(rows) + ', each confirmed here: with the patch the\nrepository\'s suite passes and the demonstration fails, without it the demonstration passes. `caught by` lists every quick\ncheck that exits 1 on the patched tree (matrix.json has rule names and counts). None of these patches is ever committed to /repo.\n\n')
     f.write('| seed | summary | caught by own check | caught by |\n|---|---|---|---|\n')
     for sid, prop, summ, caught, own in rows:
         f.write('| %s | %s | %s | %s |\n' % (sid, summ, 'yes' if own else '**no**', ' '.join(caught)))
